@@ -62,7 +62,7 @@ func c13Valid(c c13Case) bool {
 		// while a lookup is pending the other calls legitimately keep the batch waiting -
 		// unless every call of the batch carries the context that ends
 		switch c.State {
-		case "zk", "meta", "probe", "dialrefused":
+		case "zk", "meta", "probe", "dialrefused", "backoff", "busy":
 			if !c.AllOwn {
 				return false
 			}
@@ -538,7 +538,7 @@ func c13RunInBubble(c c13Case) (out Outcome) {
 				continue
 			}
 			if mustFail && res.Error == nil {
-				return viol("cancel-result-nil", "call %d of the batch was unfinished when the context ended but its result has a nil error (%s)", i, sigState)
+				return viol("cancel-result-nil", "call %d of the batch was unfinished when the context ended but its result has a nil error (%s); server log: %q", i, sigState, execHistory(execsAtEnd))
 			}
 			// (the statement only asks for the call to be marked failed: a call that was in
 			// a retry round keeps its own last error, others carry the context error)
@@ -611,6 +611,8 @@ func c13Fill(t *rapid.T, c *c13Case) {
 	if c.State == "busy" {
 		c.Queue = 2
 		c.FlushMS = 0
+		// (everything on the stalled server)
+		c.Split = false
 	}
 }
 
